@@ -61,7 +61,7 @@ def _run(case, kernels, threads):
             if kind == 'ttest':
                 acc = scared.TTestThreadAccumulator(precision=precision)
                 for a, b in _batches(case):
-                    must(case, 'TTestThreadAccumulator.update', acc.update, traces[a:b])
+                    must(case, 'TTestThreadAccumulator.update', acc.update, gen.L(case, traces[a:b]))
                 must(case, 'TTestThreadAccumulator.compute', acc.compute)
                 return {'sum': np.array(acc.sum), 'sum_squared': np.array(acc.sum_squared), 'mean': np.array(acc.mean), 'var': np.array(acc.var)}, []
             if kind == 'mia':
@@ -73,7 +73,7 @@ def _run(case, kernels, threads):
             if kernels is not None:
                 obj._verif_force_kernel = list(kernels)
             for a, b in _batches(case):
-                must(case, '%s.update (kernels %s, %d threads)' % (kind, kernels, threads), obj.update, traces[a:b], data[a:b])
+                must(case, '%s.update (kernels %s, %d threads)' % (kind, kernels, threads), obj.update, gen.L(case, traces[a:b]), gen.L(case, data[a:b], 2))
             res = must(case, '%s.compute (kernels %s, %d threads)' % (kind, kernels, threads), obj.compute)
             log = list(getattr(obj, '_verif_kernel_log', []))
             if kind == 'mia':
